@@ -110,6 +110,8 @@ ZeroTanEnds(c) == UNION {LET a == SegStart(c, i) g == c.segs[i] IN
                            IF g.k # "C" THEN {} ELSE (IF g.c1 = a THEN {a} ELSE {}) \cup (IF g.c2 = g.p THEN {g.p} ELSE {}) : i \in 1..Len(c.segs)}
 PData(p) == [vs |-> PathVerts(p), ls |-> PathLines(p), dr |-> [j \in 1..Len(p) |-> NonZero(Drawn(p[j]))],
              zt |-> UNION {ZeroTanEnds(p[j]) : j \in 1..Len(p)},
+             quads |-> UNION {{<<SegStart(p[j], i), p[j].segs[i].c1, p[j].segs[i].p>> : i \in {k \in 1..Len(p[j].segs) : p[j].segs[k].k = "Q"}} : j \in 1..Len(p)},
+             cubs |-> UNION {{<<SegStart(p[j], i), p[j].segs[i].c1, p[j].segs[i].c2, p[j].segs[i].p>> : i \in {k \in 1..Len(p[j].segs) : p[j].segs[k].k = "C"}} : j \in 1..Len(p)},
              circ |-> UNION {{<<p[j].segs[i].c1, p[j].segs[i].c2[1]>> : i \in {k \in 1..Len(p[j].segs) : p[j].segs[k].k = "A" /\ p[j].segs[k].c2[1] = p[j].segs[k].c2[2]}} : j \in 1..Len(p)}]
 \* s is a (dyadic) point of a cubic segment
 OnCubic(p, s) == \E j \in 1..Len(p) : \E i \in 1..Len(p[j].segs) : p[j].segs[i].k = "C" /\ CubWB(SegStart(p[j], i), p[j].segs[i], s)[2] = 1
@@ -120,7 +122,14 @@ FeatDir(pd, s, d) ==
         f2 == \E e \in pd.ls : Cross(s, PAdd(s, d), e[1]) = 0 /\ Cross(s, PAdd(s, d), e[2]) = 0 /\ (AheadD(s, d, e[1]) \/ AheadD(s, d, e[2]))
         f64 == \E v \in pd.zt : AheadD(s, d, v)
         \* the line of the ray touches the circle of a circular arc (distance centre-line = radius)
-        f8 == \E cr \in pd.circ : LET x == Cross(s, PAdd(s, d), cr[1]) IN x * x = (d[1] * d[1] + d[2] * d[2]) * cr[2] * cr[2]
+        nn(v) == d[1] * v[2] - d[2] * v[1]            \* coordinate along the normal of the ray
+        f8 == \/ \E cr \in pd.circ : LET x == Cross(s, PAdd(s, d), cr[1]) IN x * x = (d[1] * d[1] + d[2] * d[2]) * cr[2] * cr[2]
+              \/ \E qd \in pd.quads : LET a == nn(qd[1]) - 2 * nn(qd[2]) + nn(qd[3]) b == 2 * (nn(qd[2]) - nn(qd[1])) c == nn(qd[1]) - nn(s)
+                                      IN a # 0 /\ b * b = 4 * a * c /\ (-b) * a > 0 /\ Abs(b) < 2 * Abs(a)       \* double root strictly inside (0,1)
+              \/ \E cb \in pd.cubs : LET ns == {nn(cb[i]) : i \in 1..4} IN
+                                      /\ SetMin(ns) <= nn(s) /\ nn(s) <= SetMax(ns)
+                                      /\ ~((nn(cb[1]) <= nn(cb[2]) /\ nn(cb[2]) <= nn(cb[3]) /\ nn(cb[3]) <= nn(cb[4]) /\ nn(cb[1]) < nn(cb[4]))
+                                           \/ (nn(cb[1]) >= nn(cb[2]) /\ nn(cb[2]) >= nn(cb[3]) /\ nn(cb[3]) >= nn(cb[4]) /\ nn(cb[1]) > nn(cb[4])))
     IN (IF f1 THEN 1 ELSE 0) + (IF f2 THEN 2 ELSE 0) + (IF f8 THEN 8 ELSE 0) + (IF f64 THEN 64 ELSE 0)
 FeatD(p, pd, s) ==
     LET f1 == \E v \in pd.vs : Ahead(s, v)
